@@ -11,3 +11,15 @@ pub(crate) fn fmt_stub(_a: core::fmt::Arguments<'_>) -> String {
 pub(crate) fn rs_new() -> std::hash::RandomState {
     unsafe { core::mem::transmute((0u64, 0u64)) }
 }
+
+/// UTF-8 encoding of the first n of the given code points into a stack buffer; returns the byte length.
+/// (heap-allocated Strings with symbolic contents exhaust the back end; stack buffers do not)
+pub(crate) fn encode3(n: usize, cs: &[char; 3], buf: &mut [u8; 12]) -> usize {
+    let mut len = 0;
+    let mut i = 0;
+    while i < n {
+        len += cs[i].encode_utf8(&mut buf[len..]).len();
+        i += 1;
+    }
+    len
+}
